@@ -165,7 +165,7 @@ PROPS = {
     },
     "C08": {
         "modules": ["SxVerif.Props.C08"],
-        "components": ["engine", "e2eapp"],
+        "components": ["engine", "e2eapp", "json"],
         "trusted_base": [
             "modelled, not verified: Go channel / select / WaitGroup / context semantics as the transition system Model/Engine.lean (bounded FIFO with closed flag, send-on-closed and double close = panic, a select may take any ready case, parent cancel propagates to the derived ctx atomically); one step = one channel operation, call or timer event of one goroutine",
             "the generator and the `requests` channel are abstracted to the list of requests still to be delivered (its own plumbing is C01/C13); `Scan` is an oracle with arbitrary latency (any interleaving); the rate limiter only delays `Scan` (rateLimitScanner.Scan = Take; delegate — tied by sxfacts); the flush timer branch of LogResults and zap's error sink are not modelled",
@@ -468,7 +468,7 @@ _LATER = {
     "C05": " Also: gen and arpcache (the destination MAC a request gets from the cache, 4- and 16-byte address forms), pipeline (the frame as the socket receives it).",
     "C06": " Also: engine (the result hand-off with a slow consumer, > 3 x capacity), race pass (proc, engine), reply-flood runs of e2e from a race-enabled build of sx, capture_source_* and capture_filter_applied_to_every_frame theorems.",
     "C07": " Also: e2eerr (packet scan with an ARP cache that knows some hosts and no gateway: frames and 'no destination MAC' records counted at the process boundary, also with a lagging stderr reader), a run with more than 5 s per packet in e2eslow, errno-valued write failures in pipeline, error_records_written_through (regenerated facts about the error sink), e2eapp, race pass (pipeline, gen).",
-    "C08": " Also: bad lines between the good ones of every pairs file, 24-32 thousand bad lines (errflood), results and error records into one stream (2>&1: every line one whole record), a stderr reader that lags, error_records_written_through, race pass (engine).",
+    "C08": " Also: plain_one_line + tag jplain of component json (the plain-text records of arp / tcp / icmp / socks results, byte for byte through the real logger); bad lines between the good ones of every pairs file, 24-32 thousand bad lines (errflood), results and error records into one stream (2>&1: every line one whole record), a stderr reader that lags, error_records_written_through, race pass (engine).",
     "C09": " Also: a /21 with six slow servers among refused neighbours (records name those servers), 1000 filtered hosts with -w 1000, runs under the smallest `ulimit -n` the process starts with, race pass (socks).",
     "C10": " Also: a third of the scripted servers compress when asked (Accept-Encoding), runs under the smallest `ulimit -n`.",
     "C11": " Also: e2earp feeds the ARP scan's stdout to `sx tcp syn` as -a <file>, on a pipe, as `< file` and as `-a -`; e2earpkill (the scan ended by SIGKILL / SIGTERM while printing: stdout still loads and holds answers given); race pass (arpcache, proc, gen).",
